@@ -354,6 +354,31 @@ def r2_exception_safe(ctx, fam):
                     ctx.bad(construct, 'handler-leaves-loop', 'the handler '
                             'of the namespace loop leaves it', where(f, s),
                             rid='C11.R2')
+    # ... and it is contained INSIDE the loop: a handler around the whole
+    # loop swallows the exception but ends the iteration all the same
+    loops = [l for l in ast.walk(f.node)
+             if isinstance(l, (ast.For, ast.AsyncFor, ast.While)) and any(
+                 isinstance(c, ast.Call) and
+                 U(c.func).endswith('_handle_disconnect')
+                 for b in l.body for c in ast.walk(b))]
+    for l in loops:
+        inside = any(
+            isinstance(t, ast.Try) and any(
+                h.type is None or U(h.type) in ('Exception', 'BaseException')
+                for h in t.handlers) and any(
+                isinstance(c, ast.Call) and
+                U(c.func).endswith('_handle_disconnect')
+                for b in t.body for c in ast.walk(b))
+            for b in l.body for t in ast.walk(b))
+        ctx.check(inside, construct, 'the handler that contains a failing '
+                  'namespace lies inside the loop over the namespaces',
+                  key='namespace loop contained outside', reason='an '
+                  'exception raised while one namespace of the ending '
+                  'transport is disconnected is caught only outside the '
+                  'loop over the namespaces: it is swallowed, but the loop '
+                  'is over - the namespaces not yet reached keep the client '
+                  'in their rooms and go on delivering to it',
+                  where=where(f, l), rid='C11.R2')
 
 
 def r3_collect(ctx):
